@@ -4,7 +4,8 @@
    model). Imports the Flocq bridge (for f64::mul_add), hence classical-reals axioms are in scope
    here; nothing in this file is a theorem. *)
 From Coq Require Import List ZArith Bool String Floats Uint63.
-From IB Require Import Util.J Combiners.TDigest Combiners.TDigestFloat Combiners.KMV.
+From IB Require Import Util.J Combiners.Lawful Combiners.TDigest Combiners.TDigestFloat Combiners.KMV
+                       Combiners.KMVRank Combiners.SketchPipe.
 Import ListNotations.
 Open Scope Z_scope.
 
@@ -174,46 +175,14 @@ Definition check_mono (input output : J) : verdict :=
   end.
 
 (* ------------------------------------------------------------------ pipelines: "pipe"
-   The runner's partitioning, transcribed from src/type_token.rs (VecOpsImpl::split) and
-   src/runner.rs (exec_seq / exec_par, arms CombineGlobal and CombineValues). *)
-Fixpoint chunks_fuel {A} (fuel : nat) (n : nat) (l : list A) : list (list A) :=
-  match fuel, l with
-  | _, [] => []
-  | O, _ => [l]
-  | S f, _ => firstn n l :: chunks_fuel f n (skipn n l)
-  end.
-Definition chunks {A} (n : nat) (l : list A) : list (list A) :=
-  chunks_fuel (List.length l) (Nat.max n 1) l.
-Definition div_ceil (a b : nat) : nat := (a + b - 1) / b.
-(* VecOpsImpl::split *)
-Definition split_vec {A} (l : list A) (n : nat) : list (list A) :=
-  if (n <=? 1)%nat || (List.length l <=? 1)%nat then [l]
-  else chunks (div_ceil (List.length l) n) l.
-(* exec_par: parts = partitions.max(1).min(total_len.max(1)); parts = 0 encodes collect_seq *)
-Definition source_parts {A} (l : list A) (parts : nat) : list (list A) :=
-  if (parts =? 0)%nat then [l]
-  else split_vec l (Nat.min (Nat.max parts 1) (Nat.max (List.length l) 1)).
-
+   The runner's partitioning and the combine_* closures are part of the model
+   (Combiners/SketchPipe.v: source_parts, cg_acc, cv_acc, cvl_acc); here they are instantiated
+   with the float t-digest combiners. *)
 Definition merge_all (accs : list (digest float)) (c : float) : digest float :=
-  match accs with
-  | [] => td_new farith c
-  | first :: rest => fold_left (td_merge farith) rest first
-  end.
-(* the fan-out loop of the CombineGlobal arm of exec_par *)
-Fixpoint fan_merge (fuel : nat) (f : nat) (accs : list (digest float)) (c : float)
-  : list (digest float) :=
-  match fuel with
-  | O => accs
-  | S fuel' =>
-      if (List.length accs <=? 1)%nat then accs
-      else if (f =? 0)%nat then [merge_all accs c]
-      else fan_merge fuel' f (map (fun g => merge_all g c) (chunks (Nat.max f 2) accs)) c
-  end.
+  cg_merge (aq_combiner farith [] c) accs.
 Definition global_acc (lifted : bool) (c : float) (vals : list float) (parts fan : nat)
   : digest float :=
-  let local vs := if lifted then aq_build farith c vs
-                  else fold_left (td_add farith) vs (td_new farith c) in
-  merge_all (fan_merge 64 fan (map local (source_parts vals parts)) c) c.
+  cg_acc (aq_combiner farith [] c) lifted fan (source_parts vals parts).
 
 Fixpoint zinsert_u (x : Z) (l : list Z) : list Z :=
   match l with
@@ -223,16 +192,12 @@ Fixpoint zinsert_u (x : Z) (l : list Z) : list Z :=
 Definition zkeys (l : list Z) : list Z := fold_right zinsert_u [] l.
 
 (* CombineValues: per key, a fresh accumulator absorbs the key's accumulator of every partition
-   in which the key occurs, in partition order *)
+   in which the key occurs, in partition order (SketchPipe.cv_acc) *)
 Definition values_acc (c : float) (kvs : list (Z * float)) (parts : nat) (k : Z) : digest float :=
-  fold_left
-    (fun acc part =>
-       match filter (fun kv => fst kv =? k) part with
-       | [] => acc
-       | mine => td_merge farith acc
-                   (fold_left (td_add farith) (map snd mine) (td_new farith c))
-       end)
-    (source_parts kvs parts) (td_new farith c).
+  match cv_acc (aq_combiner farith [] c) Z.eqb k (source_parts kvs parts) with
+  | Some d => d
+  | None => td_new farith c
+  end.
 
 Definition dec_kv (j : J) : option (Z * float) :=
   match j with JL [JI k; JF v] => Some (k, v) | _ => None end.
@@ -452,7 +417,10 @@ Definition check_kmv (input output : J) : verdict :=
           let k := Z.to_nat k in
           let accs := map (kmv_build kltb keqb k) ranks in
           let model := kmv_float (kmv_finish (kmv_shape shape accs k)) in
-          ok_verdict (fsame model est && Nat.eqb (List.length parts) (List.length ranks))
+          (* the ranks the harness computed with the real DefaultHasher are exactly the ranks of
+             the model of rank_from_value (Combiners/KMVRank.v) *)
+          let ranks_agree := all2 (fun p r => fsames (map rank_of_u64 (snd p)) r) parts ranks in
+          ok_verdict (fsame model est && ranks_agree)
                      (kmv_prop k (List.concat (map snd parts)) (List.concat ranks) est)
       | _, _ => malformed
       end
@@ -469,7 +437,8 @@ Definition check_kmvp (input output : J) : verdict :=
           if negb (String.eqb okt "ok") then ok_verdict false false else
           let k := Z.to_nat k in
           let model := kmv_float (kmv_finish (kmv_build kltb keqb k ranks)) in
-          ok_verdict (fsame model est) (kmv_prop k elems ranks est)
+          ok_verdict (fsame model est && fsames (map rank_of_u64 elems) ranks)
+                     (kmv_prop k elems ranks est)
       | _, _ => malformed
       end
   | _, _ => malformed
@@ -487,7 +456,8 @@ Definition check_kmvs (input output : J) : verdict :=
           let elems := List.concat echunks in
           let ranks := List.concat rchunks in
           let model := kmv_float (kmv_finish (kmv_build kltb keqb k ranks)) in
-          ok_verdict (fsame model est) (kmv_prop k elems ranks est)
+          ok_verdict (fsame model est && fsames (map rank_of_u64 elems) ranks)
+                     (kmv_prop k elems ranks est)
       | _, _ => malformed
       end
   | _, _ => malformed
@@ -510,7 +480,8 @@ Definition check_kmvk (input output : J) : verdict :=
           let keys := zkeys (map fst kvs) in
           let mine (key : Z) := filter (fun x => fst (fst x) =? key) kers in
           ok_verdict
-            (all2 (fun key r =>
+            (fsames (map (fun kv => rank_of_u64 (snd kv)) kvs) ranks
+             && all2 (fun key r =>
                      (key =? fst r)
                      && fsame (kmv_float (kmv_finish (kmv_build kltb keqb k (map snd (mine key)))))
                               (snd r)) keys res)
@@ -519,6 +490,192 @@ Definition check_kmvk (input output : J) : verdict :=
                      && kmv_prop k (map (fun x => snd (fst x)) (mine key)) (map snd (mine key))
                                  (snd r)) keys res)
       | _, _, _ => malformed
+      end
+  | _, _ => malformed
+  end.
+
+(* ------------------------------------------------------------------ compact streams
+   Big cases travel as a list of segments [key, start, step, count, modulus]: segment i holds the
+   integers (start + step*j) mod modulus, j = 0..count-1 (modulus 0: no reduction), all under
+   `key`. The harness expands the same description; nothing else crosses the boundary, so a case
+   with 10^4 elements is a few dozen bytes. *)
+Definition dec_seg (j : J) : option (Z * Z * Z * nat * Z) :=
+  match j with
+  | JL [JI key; JI start; JI step; JI count; JI modulus] =>
+      Some (key, start, step, Z.to_nat count, modulus)
+  | _ => None
+  end.
+Fixpoint seg_vals (count : nat) (e step m : Z) : list Z :=
+  match count with
+  | O => []
+  | S n => (if m =? 0 then e else e mod m) :: seg_vals n (e + step) step m
+  end.
+(* (key, the segment's integers) *)
+Definition seg_group (s : Z * Z * Z * nat * Z) : Z * list Z :=
+  let '(key, start, step, count, m) := s in (key, seg_vals count start step m).
+Definition group_rows {A} (g : Z * list A) : list (Z * A) := map (fun e => (fst g, e)) (snd g).
+Definition zmine {A} (key : Z) (rows : list (Z * A)) : list A :=
+  map snd (filter (fun kv => fst kv =? key) rows).
+
+Definition dec_kests (j : J) : option (list (Z * float)) :=
+  match j with JL l => omap dec_kest l | _ => None end.
+Definition dec_kcount (j : J) : option (Z * Z) :=
+  match j with JL [JI k; JI n] => Some (k, n) | _ => None end.
+Definition dec_kcounts (j : J) : option (list (Z * Z)) :=
+  match j with JL l => omap dec_kcount l | _ => None end.
+
+(* ------------------------------------------------------------------ "kh": every public entry
+   point that builds a KMV sketch, on the same data:
+     adc   from_vec(elems).approx_distinct_count(k)
+     cg    from_vec(elems).combine_globally(KMVApproxDistinctCount::new(k), fanout)
+     cgl   from_vec(elems).combine_globally_lifted(.., fanout)
+     adck  from_vec(pairs).approx_distinct_count_per_key(k)
+     cv    from_vec(pairs).combine_values(KMVApproxDistinctCount::new(k))
+     gbkl  from_vec(pairs).group_by_key().combine_values_lifted(..)
+     cvl   from_vec(records).combine_values_lifted(..)   one (key, Vec<elem>) record per segment,
+           so a key occurs in several records of one partition
+     twin  per key: from_vec(the key's elems).approx_distinct_count(k)   (global twin of adck)
+     dst   from_vec(elems).distinct() -- number of rows;  dstk: distinct_per_key() rows per key
+   The model's ranks come from Combiners/KMVRank.v (SipHash-1-3), not from the harness.
+   Model: kmv_fast (proved equal to every accumulator expression's finish: c15_kmv_fast_spec +
+   c15_kmv_finish_spec + the SketchPipe theorems); for small cases also the runner-shaped model
+   (SketchPipe.combine_globally / combine_values / combine_values_lifted over kmv_combiner). *)
+Definition band_ok (k' d : nat) (est : float) : bool :=
+  if (d <? k')%nat then feq est (fofnat d)
+  else if (64 <=? k')%nat then
+    let df := fofnat d in
+    fle (PrimFloat.abs (PrimFloat.sub est df))
+        (PrimFloat.mul df (PrimFloat.div 6%float (PrimFloat.sqrt (PrimFloat.sub (fofnat k') 2%float))))
+  else negb (fnan est).
+
+Definition same_kests (a b : list (Z * float)) : bool :=
+  all2 (fun x y => (fst x =? fst y) && fsame (snd x) (snd y)) a b.
+
+Definition check_kh (input output : J) : verdict :=
+  match input, output with
+  | JL [JI k; JL jsegs; JI parts; JI fan],
+    JL [JS okt; JL [JF adc; JF cg; JF cgl; jadck; jcv; jgbkl; jcvl; jtwin; JI dst; jdstk]] =>
+      match omap dec_seg jsegs, dec_kests jadck, dec_kests jcv, dec_kests jgbkl, dec_kests jcvl,
+            dec_kests jtwin, dec_kcounts jdstk with
+      | Some segs, Some adck, Some cv, Some gbkl, Some cvl, Some twin, Some dstk =>
+          if negb (String.eqb okt "ok") then ok_verdict false false else
+          let k := Z.to_nat k in
+          let k' := Nat.max k 4 in
+          let parts := Z.to_nat parts in
+          let fan := Z.to_nat fan in
+          let groups := map seg_group segs in                       (* (key, elems) per segment *)
+          let rgroups := map (fun g => (fst g, map rank_of_u64 (snd g))) groups in
+          let rows := List.concat (map group_rows groups) in        (* (key, elem) *)
+          let rrows := List.concat (map group_rows rgroups) in      (* (key, rank) *)
+          let keys := zkeys (map fst groups) in
+          let fast (rs : list float) := kmv_float (kmv_fast kltb keqb k' rs) in
+          let gmodel := fast (map snd rrows) in
+          let kmodel := map (fun key => (key, fast (zmine key rrows))) keys in
+          let small := (k' <=? 64)%nat && (List.length rows <=? 600)%nat in
+          let comb := kmv_combiner kltb keqb k in
+          let pipe_agree :=
+            if small then
+              fsame (kmv_float (combine_globally comb false 0 parts (map snd rrows))) adc
+              && fsame (kmv_float (combine_globally comb false fan parts (map snd rrows))) cg
+              && fsame (kmv_float (combine_globally comb true fan parts (map snd rrows))) cgl
+              && all2 (fun key r =>
+                         match combine_values comb Z.eqb key parts rrows with
+                         | Some o => fsame (kmv_float o) (snd r) | None => false end) keys cv
+              && all2 (fun key r =>
+                         match combine_values_lifted comb Z.eqb key parts rgroups with
+                         | Some o => fsame (kmv_float o) (snd r) | None => false end) keys cvl
+            else true in
+          let agree :=
+            fsame gmodel adc && fsame gmodel cg && fsame gmodel cgl
+            && same_kests kmodel adck && same_kests kmodel cv && same_kests kmodel gbkl
+            && same_kests kmodel cvl && same_kests kmodel twin && pipe_agree in
+          (* property instance on the observed values; reference = the integer ids only *)
+          let d_all := zdistinct (map snd rows) in
+          let d_keys := map (fun key => (key, zdistinct (zmine key rows))) keys in
+          let per_key_ok (res : list (Z * float)) :=
+            all2 (fun kd r => (fst kd =? fst r) && band_ok k' (snd kd) (snd r)) d_keys res in
+          let prop :=
+            band_ok k' d_all adc && fsame adc cg && fsame adc cgl
+            && per_key_ok adck && same_kests adck cv && same_kests adck gbkl
+            && same_kests adck cvl && same_kests adck twin
+            && (dst =? Z.of_nat d_all)
+            && all2 (fun kd r => (fst kd =? fst r) && (Z.of_nat (snd kd) =? snd r)) d_keys dstk in
+          ok_verdict agree prop
+      | _, _, _, _, _, _, _ => malformed
+      end
+  | _, _ => malformed
+  end.
+
+(* ------------------------------------------------------------------ "qh": every public entry
+   point that builds a t-digest, on the same data. in = [comb, c, segs, qs, parts, fan, den]:
+   value = integer / den (den a power of two: exact in every value type the harness uses).
+     comb  "aq" ApproxQuantiles::new(qs, c)      "five" ::five_number_summary(c)
+           "pct" ::percentiles(c)                "median" ::median(c)
+           "med" ApproxMedian::new(c)            "meddef" ApproxMedian::default()
+     out = [cg, cgl, cv, gbkl, cvl]  (entry points as in "kh"; a median is a one-element list) *)
+Definition fofZs (z : Z) : float := if z <? 0 then PrimFloat.opp (fofZ (- z)) else fofZ z.
+
+Definition q_comb (comb : string) (c : float) (qs : list float)
+  : option (combiner float (digest float) (list float) * list float) :=
+  let med (c : float) :=
+    {| c_create := td_new farith c; c_add := td_add farith; c_merge := td_merge farith;
+       c_finish := fun d => [am_finish farith d]; c_build := aq_build farith c |} in
+  if String.eqb comb "aq" then Some (aq_combiner farith qs c, qs)
+  else if String.eqb comb "five" then
+    Some (aq_combiner farith (qs_five_number farith) c, qs_five_number farith)
+  else if String.eqb comb "pct" then
+    Some (aq_combiner farith (qs_percentiles farith) c, qs_percentiles farith)
+  else if String.eqb comb "median" then
+    Some (aq_combiner farith (qs_median farith) c, qs_median farith)
+  else if String.eqb comb "med" then Some (med c, [0.5%float])
+  else if String.eqb comb "meddef" then Some (med (am_default_compression farith), [0.5%float])
+  else None.
+
+Definition dec_kress (j : J) : option (list (Z * list float)) :=
+  match j with JL l => omap dec_kres l | _ => None end.
+
+Definition check_qh (input output : J) : verdict :=
+  match input, output with
+  | JL [JS comb; JF c; JL jsegs; jqs; JI parts; JI fan; JI den],
+    JL [JS okt; JL [jcg; jcgl; jcv; jgbkl; jcvl]] =>
+      match omap dec_seg jsegs, jfs jqs, jfs jcg, jfs jcgl, dec_kress jcv, dec_kress jgbkl,
+            dec_kress jcvl with
+      | Some segs, Some qs0, Some cg, Some cgl, Some cv, Some gbkl, Some cvl =>
+          if negb (String.eqb okt "ok") then ok_verdict false false else
+          match q_comb comb c qs0 with
+          | None => malformed
+          | Some (cb, qs) =>
+              let parts := Z.to_nat parts in
+              let fan := Z.to_nat fan in
+              let fden := fofZ den in
+              let groups := map (fun s => let g := seg_group s in
+                                          (fst g, map (fun z => PrimFloat.div (fofZs z) fden) (snd g)))
+                                segs in
+              let rows := List.concat (map group_rows groups) in
+              let vals := map snd rows in
+              let keys := zkeys (map fst groups) in
+              let agree :=
+                fsames (combine_globally cb false fan parts vals) cg
+                && fsames (combine_globally cb true fan parts vals) cgl
+                && all2 (fun key r =>
+                           (key =? fst r)
+                           && match combine_values cb Z.eqb key parts rows with
+                              | Some o => fsames o (snd r)
+                              | None => false end) keys cv
+                && all2 (fun x y => (fst x =? fst y) && fsames (snd x) (snd y)) cv gbkl
+                && all2 (fun key r =>
+                           (key =? fst r)
+                           && match combine_values_lifted cb Z.eqb key parts groups with
+                              | Some o => fsames o (snd r) | None => false end) keys cvl in
+              let per_key_prop (res : list (Z * list float)) :=
+                all2 (fun key r => (key =? fst r) && range_prop (zmine key rows) qs (snd r))
+                     keys res in
+              let prop :=
+                range_prop vals qs cg && range_prop vals qs cgl
+                && per_key_prop cv && per_key_prop gbkl && per_key_prop cvl in
+              ok_verdict agree prop
+          end
+      | _, _, _, _, _, _, _ => malformed
       end
   | _, _ => malformed
   end.
@@ -537,4 +694,6 @@ Definition check_C15 (kind : string) (input output : J) : verdict :=
   else if String.eqb kind "kmvp" then check_kmvp input output
   else if String.eqb kind "kmvs" then check_kmvs input output
   else if String.eqb kind "kmvk" then check_kmvk input output
+  else if String.eqb kind "kh" then check_kh input output
+  else if String.eqb kind "qh" then check_qh input output
   else malformed.
